@@ -18,6 +18,8 @@ type app struct {
 	name  string
 	kind  string // "list", "strlist", "dict", "list2" (needs len 2)
 	build func(v *aspgen.Val, lit *aspgen.Val) []*aspgen.Stmt
+	// noModel: the builtin is outside the modelled fragment (isinstance, json): oracle only, no correspondence case
+	noModel bool
 }
 
 func r(e *aspgen.Expr) []*aspgen.Stmt { return []*aspgen.Stmt{aspgen.Assign("r", e)} }
@@ -34,76 +36,81 @@ func apps() []app {
 		return &c
 	}
 	return []app{
-		{"sorted", "list", func(v, _ *aspgen.Val) []*aspgen.Stmt { return r(E(Call("sorted", E(v)))) }},
-		{"sorted", "list", func(v, _ *aspgen.Val) []*aspgen.Stmt {
+		{name: "sorted", kind: "list", build: func(v, _ *aspgen.Val) []*aspgen.Stmt { return r(E(Call("sorted", E(v)))) }},
+		{name: "sorted", kind: "list", build: func(v, _ *aspgen.Val) []*aspgen.Stmt {
 			return r(E(named(Call("sorted", E(v)), "reverse", E(aspgen.True()))))
 		}},
-		{"reversed", "list", func(v, _ *aspgen.Val) []*aspgen.Stmt { return r(E(Call("reversed", E(v)))) }},
-		{"enumerate", "list", func(v, _ *aspgen.Val) []*aspgen.Stmt { return r(E(Call("enumerate", E(v)))) }},
-		{"any", "list", func(v, _ *aspgen.Val) []*aspgen.Stmt { return r(E(Call("any", E(v)))) }},
-		{"all", "list", func(v, _ *aspgen.Val) []*aspgen.Stmt { return r(E(Call("all", E(v)))) }},
-		{"zip", "list", func(v, _ *aspgen.Val) []*aspgen.Stmt { return r(E(Call("zip", E(v), E(v)))) }},
-		{"zip", "list", func(v, lit *aspgen.Val) []*aspgen.Stmt { return r(E(Call("zip", E(lit), E(v)))) }},
-		{"min", "list", func(v, _ *aspgen.Val) []*aspgen.Stmt { return r(E(Call("min", E(v)))) }},
-		{"max", "list", func(v, _ *aspgen.Val) []*aspgen.Stmt { return r(E(Call("max", E(v)))) }},
-		{"map", "list", func(v, _ *aspgen.Val) []*aspgen.Stmt {
+		{name: "reversed", kind: "list", build: func(v, _ *aspgen.Val) []*aspgen.Stmt { return r(E(Call("reversed", E(v)))) }},
+		{name: "enumerate", kind: "list", build: func(v, _ *aspgen.Val) []*aspgen.Stmt { return r(E(Call("enumerate", E(v)))) }},
+		{name: "any", kind: "list", build: func(v, _ *aspgen.Val) []*aspgen.Stmt { return r(E(Call("any", E(v)))) }},
+		{name: "all", kind: "list", build: func(v, _ *aspgen.Val) []*aspgen.Stmt { return r(E(Call("all", E(v)))) }},
+		{name: "zip", kind: "list", build: func(v, _ *aspgen.Val) []*aspgen.Stmt { return r(E(Call("zip", E(v), E(v)))) }},
+		{name: "zip", kind: "list", build: func(v, lit *aspgen.Val) []*aspgen.Stmt { return r(E(Call("zip", E(lit), E(v)))) }},
+		{name: "min", kind: "list", build: func(v, _ *aspgen.Val) []*aspgen.Stmt { return r(E(Call("min", E(v)))) }},
+		{name: "max", kind: "list", build: func(v, _ *aspgen.Val) []*aspgen.Stmt { return r(E(Call("max", E(v)))) }},
+		{name: "map", kind: "list", build: func(v, _ *aspgen.Val) []*aspgen.Stmt {
 			return append([]*aspgen.Stmt{fid}, r(E(Call("map", IdE("fid"), E(v))))...)
 		}},
-		{"filter", "list", func(v, _ *aspgen.Val) []*aspgen.Stmt {
+		{name: "filter", kind: "list", build: func(v, _ *aspgen.Val) []*aspgen.Stmt {
 			return append([]*aspgen.Stmt{f1}, r(E(Call("filter", IdE("f1"), E(v))))...)
 		}},
-		{"reduce", "list", func(v, _ *aspgen.Val) []*aspgen.Stmt {
+		{name: "reduce", kind: "list", build: func(v, _ *aspgen.Val) []*aspgen.Stmt {
 			return append([]*aspgen.Stmt{f2}, r(E(Call("reduce", IdE("f2"), E(v))))...)
 		}},
-		{"len", "list", func(v, _ *aspgen.Val) []*aspgen.Stmt { return r(E(Call("len", E(v)))) }},
-		{"in", "list", func(v, lit *aspgen.Val) []*aspgen.Stmt {
+		{name: "len", kind: "list", build: func(v, _ *aspgen.Val) []*aspgen.Stmt { return r(E(Call("len", E(v)))) }},
+		{name: "in", kind: "list", build: func(v, lit *aspgen.Val) []*aspgen.Stmt {
 			x := aspgen.IntE(1)
 			if len(lit.Items) > 0 && len(lit.Items[0].Ops) == 0 && lit.Items[0].Val.K != "list" {
 				x = lit.Items[0]
 			}
 			return r(E(x.Val, Bin("in", v)))
 		}},
-		{"not-in", "list", func(v, _ *aspgen.Val) []*aspgen.Stmt { return r(E(aspgen.Str("zz"), Bin("not in", v))) }},
-		{"add", "list", func(v, lit *aspgen.Val) []*aspgen.Stmt { return r(E(v, Bin("+", lit))) }},
-		{"radd", "list", func(v, lit *aspgen.Val) []*aspgen.Stmt { return r(E(lit, Bin("+", v))) }},
-		{"eq", "list", func(v, lit *aspgen.Val) []*aspgen.Stmt { return r(E(v, Bin("==", lit))) }},
-		{"eq", "list", func(v, lit *aspgen.Val) []*aspgen.Stmt { return r(E(lit, Bin("==", v))) }},
-		{"ne", "list", func(v, lit *aspgen.Val) []*aspgen.Stmt { return r(E(v, Bin("!=", lit))) }},
-		{"mul", "list", func(v, _ *aspgen.Val) []*aspgen.Stmt { return r(E(v, Bin("*", aspgen.Int(2)))) }},
-		{"rmul", "list", func(v, _ *aspgen.Val) []*aspgen.Stmt { return r(E(aspgen.Int(2), Bin("*", v))) }},
-		{"comprehension", "list", func(v, _ *aspgen.Val) []*aspgen.Stmt {
+		{name: "not-in", kind: "list", build: func(v, _ *aspgen.Val) []*aspgen.Stmt { return r(E(aspgen.Str("zz"), Bin("not in", v))) }},
+		{name: "add", kind: "list", build: func(v, lit *aspgen.Val) []*aspgen.Stmt { return r(E(v, Bin("+", lit))) }},
+		{name: "radd", kind: "list", build: func(v, lit *aspgen.Val) []*aspgen.Stmt { return r(E(lit, Bin("+", v))) }},
+		{name: "eq", kind: "list", build: func(v, lit *aspgen.Val) []*aspgen.Stmt { return r(E(v, Bin("==", lit))) }},
+		{name: "eq", kind: "list", build: func(v, lit *aspgen.Val) []*aspgen.Stmt { return r(E(lit, Bin("==", v))) }},
+		{name: "ne", kind: "list", build: func(v, lit *aspgen.Val) []*aspgen.Stmt { return r(E(v, Bin("!=", lit))) }},
+		{name: "mul", kind: "list", build: func(v, _ *aspgen.Val) []*aspgen.Stmt { return r(E(v, Bin("*", aspgen.Int(2)))) }},
+		{name: "rmul", kind: "list", build: func(v, _ *aspgen.Val) []*aspgen.Stmt { return r(E(aspgen.Int(2), Bin("*", v))) }},
+		{name: "comprehension", kind: "list", build: func(v, _ *aspgen.Val) []*aspgen.Stmt {
 			return r(E(aspgen.Comp(E(aspgen.List(IdE("e"))), []string{"e"}, E(v), nil)))
 		}},
-		{"for", "list", func(v, _ *aspgen.Val) []*aspgen.Stmt {
+		{name: "for", kind: "list", build: func(v, _ *aspgen.Val) []*aspgen.Stmt {
 			return []*aspgen.Stmt{aspgen.Assign("r", aspgen.IntE(0)), aspgen.For([]string{"e"}, E(v), aspgen.Aug("r", aspgen.IntE(1)))}
 		}},
-		{"join", "strlist", func(v, _ *aspgen.Val) []*aspgen.Stmt { return r(E(aspgen.Method(aspgen.Str(","), "join", E(v)))) }},
-		{"index", "list", func(v, _ *aspgen.Val) []*aspgen.Stmt { return r(E(aspgen.Index(v, aspgen.IntE(0)))) }},
-		{"slice", "list", func(v, _ *aspgen.Val) []*aspgen.Stmt { return r(E(aspgen.SliceOf(v, aspgen.IntE(0), aspgen.IntE(1)))) }},
-		{"str", "list", func(v, _ *aspgen.Val) []*aspgen.Stmt { return r(E(Call("str", E(v)))) }},
-		{"truth", "list", func(v, _ *aspgen.Val) []*aspgen.Stmt {
+		{name: "join", kind: "strlist", build: func(v, _ *aspgen.Val) []*aspgen.Stmt { return r(E(aspgen.Method(aspgen.Str(","), "join", E(v)))) }},
+		{name: "index", kind: "list", build: func(v, _ *aspgen.Val) []*aspgen.Stmt { return r(E(aspgen.Index(v, aspgen.IntE(0)))) }},
+		{name: "slice", kind: "list", build: func(v, _ *aspgen.Val) []*aspgen.Stmt { return r(E(aspgen.SliceOf(v, aspgen.IntE(0), aspgen.IntE(1)))) }},
+		{name: "str", kind: "list", build: func(v, _ *aspgen.Val) []*aspgen.Stmt { return r(E(Call("str", E(v)))) }},
+		{name: "truth", kind: "list", build: func(v, _ *aspgen.Val) []*aspgen.Stmt {
 			return r(&aspgen.Expr{Val: aspgen.Int(1), If: E(v), Els: aspgen.IntE(0)})
 		}},
-		{"unpack", "list2", func(v, _ *aspgen.Val) []*aspgen.Stmt {
+		{name: "unpack", kind: "list2", build: func(v, _ *aspgen.Val) []*aspgen.Stmt {
 			return []*aspgen.Stmt{{K: "unpack", Names: []string{"r", "r2"}, E: E(v)}}
 		}},
-		{"less-than", "list", func(v, lit *aspgen.Val) []*aspgen.Stmt { return r(E(v, Bin("<", lit))) }},
-		{"less-than-operand", "list", func(v, lit *aspgen.Val) []*aspgen.Stmt { return r(E(lit, Bin("<", v))) }},
+		{name: "less-than", kind: "list", build: func(v, lit *aspgen.Val) []*aspgen.Stmt { return r(E(v, Bin("<", lit))) }},
+		{name: "slice", kind: "list", build: func(v, _ *aspgen.Val) []*aspgen.Stmt { return r(E(aspgen.SliceOf(v, aspgen.IntE(1), nil))) }},
+		{name: "isinstance", kind: "list", noModel: true, build: func(v, _ *aspgen.Val) []*aspgen.Stmt { return r(E(Call("isinstance", E(v), IdE("list")))) }},
+		{name: "json", kind: "list", noModel: true, build: func(v, _ *aspgen.Val) []*aspgen.Stmt { return r(E(Call("json", E(v)))) }},
+		{name: "isinstance", kind: "dict", noModel: true, build: func(v, _ *aspgen.Val) []*aspgen.Stmt { return r(E(Call("isinstance", E(v), IdE("dict")))) }},
+		{name: "json", kind: "dict", noModel: true, build: func(v, _ *aspgen.Val) []*aspgen.Stmt { return r(E(Call("json", E(v)))) }},
+		{name: "less-than-operand", kind: "list", build: func(v, lit *aspgen.Val) []*aspgen.Stmt { return r(E(lit, Bin("<", v))) }},
 
-		{"len", "dict", func(v, _ *aspgen.Val) []*aspgen.Stmt { return r(E(Call("len", E(v)))) }},
-		{"in", "dict", func(v, _ *aspgen.Val) []*aspgen.Stmt { return r(E(aspgen.Str("k"), Bin("in", v))) }},
-		{"dict-eq", "dict", func(v, lit *aspgen.Val) []*aspgen.Stmt { return r(E(v, Bin("==", lit))) }},
-		{"index", "dict", func(v, _ *aspgen.Val) []*aspgen.Stmt { return r(E(aspgen.Index(v, aspgen.StrE("k")))) }},
-		{"get", "dict", func(v, _ *aspgen.Val) []*aspgen.Stmt {
+		{name: "len", kind: "dict", build: func(v, _ *aspgen.Val) []*aspgen.Stmt { return r(E(Call("len", E(v)))) }},
+		{name: "in", kind: "dict", build: func(v, _ *aspgen.Val) []*aspgen.Stmt { return r(E(aspgen.Str("k"), Bin("in", v))) }},
+		{name: "dict-eq", kind: "dict", build: func(v, lit *aspgen.Val) []*aspgen.Stmt { return r(E(v, Bin("==", lit))) }},
+		{name: "index", kind: "dict", build: func(v, _ *aspgen.Val) []*aspgen.Stmt { return r(E(aspgen.Index(v, aspgen.StrE("k")))) }},
+		{name: "get", kind: "dict", build: func(v, _ *aspgen.Val) []*aspgen.Stmt {
 			return r(E(aspgen.Method(v, "get", aspgen.StrE("zz"), aspgen.IntE(7))))
 		}},
-		{"keys", "dict", func(v, _ *aspgen.Val) []*aspgen.Stmt { return r(E(aspgen.Method(v, "keys"))) }},
-		{"values", "dict", func(v, _ *aspgen.Val) []*aspgen.Stmt { return r(E(aspgen.Method(v, "values"))) }},
-		{"items", "dict", func(v, _ *aspgen.Val) []*aspgen.Stmt { return r(E(aspgen.Method(v, "items"))) }},
-		{"union", "dict", func(v, lit *aspgen.Val) []*aspgen.Stmt { return r(E(v, Bin("|", lit))) }},
-		{"union-operand", "dict", func(v, lit *aspgen.Val) []*aspgen.Stmt { return r(E(lit, Bin("|", v))) }},
-		{"str", "dict", func(v, _ *aspgen.Val) []*aspgen.Stmt { return r(E(Call("str", E(v)))) }},
-		{"truth", "dict", func(v, _ *aspgen.Val) []*aspgen.Stmt {
+		{name: "keys", kind: "dict", build: func(v, _ *aspgen.Val) []*aspgen.Stmt { return r(E(aspgen.Method(v, "keys"))) }},
+		{name: "values", kind: "dict", build: func(v, _ *aspgen.Val) []*aspgen.Stmt { return r(E(aspgen.Method(v, "values"))) }},
+		{name: "items", kind: "dict", build: func(v, _ *aspgen.Val) []*aspgen.Stmt { return r(E(aspgen.Method(v, "items"))) }},
+		{name: "union", kind: "dict", build: func(v, lit *aspgen.Val) []*aspgen.Stmt { return r(E(v, Bin("|", lit))) }},
+		{name: "union-operand", kind: "dict", build: func(v, lit *aspgen.Val) []*aspgen.Stmt { return r(E(lit, Bin("|", v))) }},
+		{name: "str", kind: "dict", build: func(v, _ *aspgen.Val) []*aspgen.Stmt { return r(E(Call("str", E(v)))) }},
+		{name: "truth", kind: "dict", build: func(v, _ *aspgen.Val) []*aspgen.Stmt {
 			return r(&aspgen.Expr{Val: aspgen.Int(1), If: E(v), Els: aspgen.IntE(0)})
 		}},
 	}
@@ -180,14 +187,20 @@ func coqOutcome(res aspgen.Result) string {
 	return "(OGlobals " + aspgen.CoqGlobals(res.After) + " " + aspgen.CoqGlobals(res.Final) + ")"
 }
 
+// evalCase wraps an interpreter-run case of the shared model (C16.CAsp) into C18's case type.
+func evalCase(args ...string) string { return lib.App("CEval", lib.App("CAsp", args...)) }
+
 func main() {
 	gologging.SetLevel(gologging.CRITICAL, "plz")
 	lib.Main("C18", func(c *lib.Ctx) {
 		c.Model("From PlzV Require Import Model.C16_Syntax Model.C16_Eval Model.C16 Model.C18.", "C18.case", "C18.check")
 		c.Rule("every application of a builtin or operator that takes a list or dict (sorted reversed enumerate any all zip min max map filter reduce len in + == != * " +
-			"comprehension for join index slice str truth unpack < keys values items get |) to generated values (int/str/nested lists, empty list, dicts with list and dict " +
-			"members): interpreted by the real asp once with the value defined in the BUILD file and once imported through subinclude. distinct = distinct (value, application) " +
-			"pairs; all are non-trivial (the imported run crosses a Freeze)")
+			"comprehension for join index slice str truth unpack < keys values items get | isinstance json) to generated values (int/str/nested lists, empty list, dicts with list and dict " +
+			"members): interpreted by the real asp once with the value defined in the BUILD file and once imported through subinclude. Follow-up streams: (sum) the same applications to " +
+			"the RESULT W of [] + V, V + [], (S or []) + V with S = [] / None, V | {}, {} | V; (config) to a list / dict / nested-list / dict-member entry of CONFIG that a subincluded " +
+			"file set (setdefault, assignment, assignment then setdefault, override of a base key, next to a plain global) and the package reads back (CONFIG.K, CONFIG[K], CONFIG.get(K)), " +
+			"compared with the entry set by the package itself and with the literal. distinct = distinct (value, program) pairs; all are non-trivial (the imported run crosses a Freeze). " +
+			"Packages are interpreted forty to an interpreter, each with a scope, CONFIG copy and defs label of its own")
 		reps := c.Scale(6, 120)
 		for _, a := range apps() {
 			for k := 0; k < reps; k++ {
@@ -195,34 +208,46 @@ func main() {
 				lit := genValue(rg, a.kind)
 				V := aspgen.Ident("V")
 				body := a.build(V, lit)
+				label := nextLabel()
 				local := append(aspgen.Prog{aspgen.Assign("V", aspgen.E(lit))}, body...)
 				defs := aspgen.Prog{aspgen.Assign("V", aspgen.E(lit))}
-				imported := append(aspgen.Prog{aspgen.CallStmt("subinclude", aspgen.StrE("//defs:d"))}, body...)
-				rl := aspgen.Eval([]aspgen.File{aspgen.NewFile("p", local, false)}, false)[0]
-				ri := aspgen.Eval([]aspgen.File{aspgen.NewFile("//defs:d", defs, true), aspgen.NewFile("p", imported, false)}, false)[0]
-				ol, oi := outcome(rl), outcome(ri)
-				kindName := "list"
-				if a.kind == "dict" {
-					kindName = "dict"
-				}
-				in := map[string]any{"value": aspgen.SrcVal(lit), "application": aspgen.Source(body), "local": ol, "imported": oi}
-				c.Oracle()
-				c.Hist("application", kindName+":"+a.name)
-				sameErr := rl.Err != "" && ri.Err != ""
-				if !(ol == oi || sameErr) {
-					c.Fail("frozen-"+kindName+"-"+a.name, fmt.Sprintf("%s on an imported (frozen) %s: %s; on the same value defined locally: %s", a.name, kindName, oi, ol), in)
-					c.Hist("outcome", "differ")
-				} else if sameErr {
-					c.Hist("outcome", "both-raise")
-				} else {
-					c.Hist("outcome", "same")
-				}
-				key := aspgen.Source(local)
-				c.Case(lib.App("CAsp", "false", "[]", lib.List([]string{aspgen.CoqProg(local)}), lib.List([]string{coqOutcome(rl)})),
-					map[string]any{"src": aspgen.Source(local), "asp": map[string]any{"err": rl.Err, "final": rl.Final}}, "l:"+key, true)
-				c.Case(lib.App("CAsp", "false", lib.List([]string{lib.Pair(lib.Str("//defs:d"), aspgen.CoqProg(defs))}), lib.List([]string{aspgen.CoqProg(imported)}), lib.List([]string{coqOutcome(ri)})),
-					map[string]any{"defs": aspgen.Source(defs), "src": aspgen.Source(imported), "asp": map[string]any{"err": ri.Err, "final": ri.Final}}, "i:"+key, true)
+				imported := append(aspgen.Prog{aspgen.CallStmt("subinclude", aspgen.StrE(label))}, body...)
+				jl := submit(nil, aspgen.NewFile("p", local, false))
+				df := aspgen.NewFile(label, defs, true)
+				ji := submit(&df, aspgen.NewFile("p", imported, false))
+				a := a
+				later(func() {
+					rl, ri := jl.res, ji.res
+					ol, oi := outcome(rl), outcome(ri)
+					kindName := "list"
+					if a.kind == "dict" {
+						kindName = "dict"
+					}
+					in := map[string]any{"value": aspgen.SrcVal(lit), "application": aspgen.Source(body), "local": ol, "imported": oi}
+					c.Oracle()
+					c.Hist("application", kindName+":"+a.name)
+					sameErr := rl.Err != "" && ri.Err != ""
+					if !(ol == oi || sameErr) {
+						c.Fail("frozen-"+kindName+"-"+a.name, fmt.Sprintf("%s on an imported (frozen) %s: %s; on the same value defined locally: %s", a.name, kindName, oi, ol), in)
+						c.Hist("outcome", "differ")
+					} else if sameErr {
+						c.Hist("outcome", "both-raise")
+					} else {
+						c.Hist("outcome", "same")
+					}
+					if a.noModel {
+						return
+					}
+					key := aspgen.Source(local)
+					c.Case(evalCase("false", "[]", lib.List([]string{aspgen.CoqProg(local)}), lib.List([]string{coqOutcome(rl)})),
+						map[string]any{"src": aspgen.Source(local), "asp": map[string]any{"err": rl.Err, "final": rl.Final}}, "l:"+key, true)
+					c.Case(evalCase("false", lib.List([]string{lib.Pair(lib.Str(label), aspgen.CoqProg(defs))}), lib.List([]string{aspgen.CoqProg(imported)}), lib.List([]string{coqOutcome(ri)})),
+						map[string]any{"defs": aspgen.Source(defs), "src": aspgen.Source(imported), "asp": map[string]any{"err": ri.Err, "final": ri.Final}}, "i:"+key, true)
+				})
 			}
 		}
+		sumStream(c)
+		configStream(c)
+		flush()
 	})
 }
